@@ -16,11 +16,20 @@ CFG = dict(
         "fanPositive_check_sound", "fanEmpty_check_sound",
         # the geometric content of FanPositive at one boundary edge
         "two_circle", "boundary_edge_inner",
+        # FanPositive / FanEmpty DISCHARGED: pencil-of-circles lemmas, the cavity-edge lemma, the state invariant; the Delaunay and
+        # strict-winding clauses of the model conditional on the ONE combinatorial hypothesis CavityDisc
+        "fan_empty_same_side", "fan_empty_other_side", "cavity_edge", "stateInv_step", "pairing_step",
+        "bw_delaunay_of_edgePaired", "fanPositive_of_edgePaired", "fanEmpty_of_edgePaired",
+        "structure_of_cavityDisc", "bw_delaunay_of_cavityDisc", "fan_hypotheses_of_cavityDisc",
+        "pointFn_inputsInSuper", "bowyerWatson_delaunay_of_cavityDisc", "cavityDisc_check_sound",
     ],
     # auxiliary lemmas used by the theorems above (kernel-checked with them; not counted as property theorems)
     helper_theorems=[
         "mem_insertTri_iff", "insertTri_nodup", "fillHole_spec", "step_spec", "step_perm", "loop_perm", "stateAt_succ",
-        "stateAt_nodup", "inCircleDet_corner", "two_circle_identity", "delaunay_inv_of_fanEmpty", "winding_inv_of_fanPositive",
+        "stateAt_nodup", "inCircleDet_corner", "two_circle_identity",
+        "orient_rot", "inCircleDet_rot", "orient_self", "pencil_identity", "inCircleDet_swap34", "inCircleDet_swap12", "edge_opp",
+        "no_both_dirs", "present_mono", "present_super_side", "not_present_self", "stateInv_zero", "stateInv_of_edgePaired",
+        "edge_verts", "edgePaired_of_cavityDisc", "bw_empty_circumcircles_of_edgePaired", "delaunay_inv_of_fanEmpty", "winding_inv_of_fanPositive",
         "sep_key", "sepEdge_sound", "loop_inv", "pointFn_input", "pointFn_super", "orient_smul",
         "delaunay_check_raw",
     ],
@@ -35,6 +44,27 @@ CFG = dict(
         "empty-circumcircle triangulation for EVERY point set in general position is kept as `def C20_full : Prop` (Props/C20.lean) and is not proved. "
         "The winding / positive-area / non-overlap / Delaunay / vertex / index clauses are decided per run by the verified checkers "
         "(c20_checkers_sound, vertices_check_sound) applied to the implementation's OUTPUT in exact arithmetic: sound per input, sampled over inputs",
+        "KNOWN FINDING C20-float-incircle-tight-cluster (unchanged library): a far point inserted after a triangle of three tightly clustered "
+        "points gets a float64 in-circle determinant whose sign is noise; output non-Delaunay and overlapping on distinct points in general "
+        "position. Measured onset: cluster spacing ≈ 2^5 ulps of the far coordinates (spacing/distance ≈ 2^-48: no failure at spacing 2^-37 vs "
+        "coordinates ~2^10, 4.5 % of random 7-point shapes at 2^-38, 36 % at 2^-46, 50 % at 2^-49). Recorded by a fixed 7-point witness "
+        "(ops c20.holds.delaunay_tight_cluster_witness / c20.holds.no_overlap_tight_cluster_witness, first lines of every stream; general "
+        "position proved in Lean by decide over ℤ); the random generators avoid the class (frame first, one cluster last, dyadic coordinates)",
+        "Go evaluates orient / inCircle in float64 (rounding); all theorems are over exact arithmetic (ordered rings/fields). The oracle judges the float "
+        "implementation's output against the exact predicates, so a float sign error on a near-degenerate input would show up as an oracle failure; generators keep predicates well-conditioned",
+        "coverage of the convex hull is not part of C20 and not checked (a finite super-triangle may drop thin hull triangles; 3 nearly collinear points give zero triangles)",
+        "THE ONE REMAINING UNPROVED HYPOTHESIS of the model's Delaunay / strict-winding clauses, named CavityDisc (combinatorial/topological): at "
+        "every insertion the boundary of the cavity (polygon of the bad set) has in-degree one and out-degree one at each of its vertices, in the "
+        "states the loop reaches. FanPositive and FanEmpty are NO LONGER hypotheses: cavity_edge proves both at every boundary edge from the state "
+        "invariant (strictly clockwise triangles; Delaunay w.r.t. inserted points AND super-triangle vertices; directed edges paired and unique), "
+        "using two_circle / boundary_edge_inner and the pencil-of-circles lemmas fan_empty_same_side / fan_empty_other_side (Grassmann–Plücker "
+        "identities by ring), with no general-position assumption; pairing_step shows the pairing/uniqueness invariant survives an insertion "
+        "whose cavity boundary satisfies DiscAt. Result: bw_delaunay_of_cavityDisc / bowyerWatson_delaunay_of_cavityDisc (every map order, "
+        "every input of positive width). Discharging CavityDisc itself stopped here: out-degree >= 1 has a route (rotate around the vertex "
+        "through bad triangles; finiteness + edge uniqueness), but in-degree <= 1 needs planarity (angular order around the inserted point / "
+        "the state is an embedded triangulation), which the invariant does not carry. CavityDisc is decided per run by cavityDiscOk "
+        "(cavityDisc_check_sound) on the model's own states in exact arithmetic (oracle c20.holds.cavity_disc, inputs up to 40 points); the "
+        "fan oracles are kept as cross-checks. No hypothesis is isolated for the non-overlap clause",
         "KNOWN FINDING C20-float-incircle-tight-cluster (unchanged library): a far point inserted after a triangle of three tightly clustered "
         "points gets a float64 in-circle determinant whose sign is noise; output non-Delaunay and overlapping on distinct points in general "
         "position. Measured onset: cluster spacing ≈ 2^5 ulps of the far coordinates (spacing/distance ≈ 2^-48: no failure at spacing 2^-37 vs "
@@ -64,10 +94,11 @@ CFG = dict(
              "clockwise and strictly contains every input (positive width); in the algorithm model, for every map enumeration order: output "
              "vertices are the inputs in order (definitional), no super-triangle index survives, no triangle ever inserted is counter-clockwise "
              "(non-strict: orient ≤ 0; strict unless collinear), and the FINAL TRIANGLE SET (index triples, corner order included) is independent of the map "
-             "iteration order (bw_order_independent: any two enumerations give duplicate-free permutations of one another); under the two NAMED, UNPROVED "
-             "geometric hypotheses FanEmpty (each new fan triangle is empty of earlier points) and FanPositive (the inserted point is strictly inside "
-             "its cavity's boundary) the model's output has no input strictly inside a circumcircle and is strictly uniformly wound, by induction over "
-             "the insertions — both hypotheses are decided per run on the model's states in exact arithmetic; the EXECUTABLE "
+             "iteration order (bw_order_independent: any two enumerations give duplicate-free permutations of one another); under the ONE NAMED, UNPROVED, purely "
+             "combinatorial hypothesis CavityDisc (at every insertion the cavity boundary has in- and out-degree one at each vertex) the model's output "
+             "— every map order, every input of positive width — is strictly uniformly wound (positive area) and has no input strictly inside a "
+             "circumcircle (bw_delaunay_of_cavityDisc): the geometric facts FanPositive / FanEmpty are PROVED from the state invariant by the two-circle "
+             "and pencil-of-circles lemmas; CavityDisc is decided per run on the model's states in exact arithmetic; the EXECUTABLE "
              "checkers for vertices, index range, strict uniform winding (= positive area), no input strictly inside a circumcircle, no two "
              "triangles sharing an interior point are proved sound (c20_checkers_sound) and are run by the driver in exact integer arithmetic on "
              "the IEEE bit patterns of the real BowyerWatson output: sound per input, sampled over inputs (14 generator classes, 3–200 points: "
